@@ -20,6 +20,7 @@ type LedgerGenOpts struct {
 	Replays              bool
 	BigAmounts           bool
 	DirectSlashes        bool // direct calls of the slash entry point with random parameters
+	NSTUpdates           bool // direct native-restaking balance adjustments (when the config has an NST asset)
 }
 
 var defaultLedgerWeights = map[string]int{
